@@ -581,12 +581,14 @@ impl<P: seq_io::policy::BufPolicy> seq_io::policy::BufPolicy for CountingPolicy<
 }
 
 /// how sequential reading of the same input ends
-/// the input behind a source that fails at its K-th read call (whole-buffer reads before that)
+/// the input behind a source that fails at its K-th read call and at every later one (whole-buffer reads before that)
 fn faulty_source(input: Vec<u8>, fault: Option<(usize, usize)>) -> crate::util::ScriptedReader {
     let script = match fault {
         Some((k, kind)) => {
             let mut s = vec![crate::util::ReadEv::Data(1 << 20); k.saturating_sub(1)];
-            s.push(crate::util::ReadEv::Fail(kind));
+            // from that call on every read fails: a reader that went on reading after the failure (a retry loop, a
+            // swallowed error) would never come back
+            s.push(crate::util::ReadEv::Sticky(kind));
             s
         }
         None => vec![],
